@@ -11,8 +11,14 @@ COMMON_ASSUME = [
     "coverage is limited to the scenarios, schedules and chaos delays this run produced",
 ]
 
+def stepper(budget_q=12, budget_t=180, **kw):
+    e = {"bin": "chan_stepper", "pkg": "vh_channels", "budget": {"quick": budget_q, "thorough": budget_t},
+         "shards": {"quick": 8, "thorough": 16}}
+    e.update(kw)
+    return e
+
 REGISTRY = {
-    "C01": {"engines": [stress()], "assumptions": COMMON_ASSUME},
+    "C01": {"engines": [stress(budget_q=20), stepper(budget_q=6, budget_t=90)], "assumptions": COMMON_ASSUME},
     "C02": {"engines": [stress()], "assumptions": COMMON_ASSUME},
     "C03": {"engines": [stress()], "assumptions": COMMON_ASSUME},
     "C04": {"engines": [stress()], "assumptions": COMMON_ASSUME},
@@ -20,6 +26,8 @@ REGISTRY = {
         "progress verdicts: a thread counts as stuck only after 3 quiet windows with a healthy scheduler canary, all "
         "unfinished threads inside blocking calls, and either a legal spurious wake releases it or the history model "
         "shows its operation enabled"]},
-    "C06": {"engines": [stress()], "assumptions": COMMON_ASSUME},
-    "C09": {"engines": [stress()], "assumptions": COMMON_ASSUME},
+    "C06": {"engines": [stepper(), stress(budget_q=15, budget_t=240)], "assumptions": COMMON_ASSUME + [
+        "stepper: one in-flight future per handle; a Stream poll is followed through to Ready (abandoning the wrapper "
+        "drops no library future); wakers never poll inline"]},
+    "C09": {"engines": [stress(budget_q=20), stepper(budget_q=6, budget_t=90)], "assumptions": COMMON_ASSUME},
 }
